@@ -3,6 +3,8 @@ package props
 import (
 	"encoding/json"
 	"fmt"
+	"os"
+	"path/filepath"
 	"strings"
 	"unicode/utf8"
 
@@ -14,7 +16,49 @@ import (
 // decoding operators (@urid, @base64d) produce them. JSON text is UTF-8 by definition: whatever the JSON encoder does
 // with such a string (it substitutes U+FFFD), its output is valid UTF-8 and valid JSON — as a value and as a key, at the
 // top level and nested, through -o=json and through to_json.
+// c06NulSeparated: top-level strings printed raw and NUL separated (-0 with scalar unwrapping): every string comes out
+// exactly, the line feeds and carriage returns it ends in included, followed by one NUL.
+func c06NulSeparated(w *mon.Worker, idx int) mon.Result {
+	r := w.Rand(idx)
+	res := mon.Result{Tags: []string{"sub:bytes", "mode:nul-separated"}, Nontrivial: true}
+	n := 2 + r.IntN(4)
+	var strs []string
+	var js []string
+	for i := 0; i < n; i++ {
+		s := []string{"a", "two words", "literal block", "é", "x:y", "-"}[r.IntN(6)] + []string{"", "\n", "\n\n", "\r\n", "\n \n", " ", "\t\n"}[r.IntN(7)]
+		strs = append(strs, s)
+		b, _ := json.Marshal(s)
+		js = append(js, string(b))
+	}
+	text := "[" + strings.Join(js, ", ") + "]\n"
+	dir := filepath.Join(w.Scratch, fmt.Sprintf("c06nul-%d", idx))
+	_ = os.MkdirAll(dir, 0o755)
+	defer os.RemoveAll(dir)
+	f := filepath.Join(dir, "in.json")
+	_ = os.WriteFile(f, []byte(text), 0o644)
+	flags := [][]string{{"-0", "-r", "-o=json"}, {"-0", "-o=yaml"}, {"-0", "-r", "-o=json", "-I0"}, {"-0", "-o=props"}}[r.IntN(4)]
+	res.Case = map[string]any{"doc": text, "flags": flags, "mode": "nul-separated"}
+	res.Sig = fmt.Sprintf("nulsep|%v|%x", flags, hashStr(text))
+	x := mon.Run(mon.RunOpts{Dir: dir}, append(append([]string{w.YqBin()}, flags...), ".[]", f)...)
+	res.Evals++
+	if x.TimedOut {
+		res.Verdict, res.Detail = mon.Inconclusive, "binary timed out"
+		return res
+	}
+	want := strings.Join(strs, "\x00") + "\x00"
+	if x.Exit != 0 || string(x.Stdout) != want {
+		res.Verdict = mon.Violated
+		res.Detail = fmt.Sprintf("yq %v '.[]' (exit %d) prints %q; the strings are %q, each followed by one NUL: %q", flags, x.Exit, clipStr(string(x.Stdout), 300), strs, clipStr(want, 300))
+		return res
+	}
+	res.Verdict, res.Detail = mon.Held, fmt.Sprintf("%d strings exact", n)
+	return res
+}
+
 func c06ByteStrings(w *mon.Worker, idx int) mon.Result {
+	if idx%120 == 119 && !w.Race {
+		return c06NulSeparated(w, idx)
+	}
 	r := w.Rand(idx)
 	src := []string{`"caf%E9" | @urid`, `"%ff%fe" | @urid`, `"/w==" | @base64d`, `"gICA" | @base64d`, `"a%C3" | @urid`, `"%ED%A0%80" | @urid`, `"ok%20" | @urid`}[r.IntN(7)]
 	expr := []string{src, `{"k": (` + src + `)}`, `[1, (` + src + `)]`, `{(` + src + `): 1}`, `(` + src + `) | to_json`, `{"k": (` + src + `)} | to_json(0)`, `[(` + src + `)] | @json`}[r.IntN(7)]
